@@ -26,6 +26,7 @@ def dispatch (line : String) : String :=
       else if kind == "movedead" || kind == "krand" || kind == "gossipsel" || kind == "ppsel" || kind == "relaysel" || kind == "resetsel" then Swim.Drv.Select.handle kind fs
       else if kind == "leak" && prop != "C20" then Swim.Drv.C03.handle kind fs
       else if kind == "probe" && prop == "C13" then Swim.Drv.C19.handle kind fs
+      else if kind == "stall" && prop == "C20" then Swim.Drv.Ingest.handleC13 kind fs
       else if kind == "stir" then Swim.Drv.Merge.handle prop kind fs else match prop with
       | "C17" => Swim.Drv.C17.handle kind fs
       | "C03" => if kind == "hist" then Swim.Drv.Merge.handle "C06" kind fs else Swim.Drv.C03.handle kind fs
